@@ -130,7 +130,10 @@ def draw_pins(rng, cc, p=0.3):
                 if all(ch in gens_class(cl[a + i]) for i, ch in enumerate(cand)):
                     v = cand
             pins[k] = v
-    return pins
+    # keyword order is the caller's business: any order of the pinned components
+    items = list(pins.items())
+    rng.shuffle(items)
+    return dict(items)
 
 
 def gens_class(letter):
